@@ -711,6 +711,10 @@ fn indent(amount: usize) -> String {
 
 fn newline_if_body(core: &Core, ind: usize) -> String {
     match core {
+        // a body without statements (only comments in the source) still needs a statement in Python
+        Core::Block { statements } if statements.is_empty() => {
+            format!("\n{}pass", indent(ind + 1))
+        }
         Core::Block { .. } => format!("\n{}", to_py(core, ind + 1)),
         _ => format!("\n{}{}", indent(ind + 1), to_py(core, ind + 1)),
     }
